@@ -449,3 +449,27 @@ hist! {
         }
     }
 }
+
+// The same history with CONCRETE choices (signal SIGUSR1, the OLDEST action removed, then a re-registration): a plain
+// symbolic execution of the public mutators + dispatcher with nothing left for the solver, so it also finishes when the
+// per-signal container is refactored into something the symbolic harness above is too expensive for (a Vec with
+// swap_remove: seeds C02b / C05d). Bounded: one concrete history.
+hist! {
+    fn c02_hist_order_concrete() {
+        let a: c_int = libc::SIGUSR1;
+        unsafe {
+            let i1 = register_sigaction(a, act(1)).unwrap();
+            let i2 = register_sigaction(a, act(2)).unwrap();
+            let i3 = register_sigaction(a, act(3)).unwrap();
+            assert!(i1 != i2 && i2 != i3 && i1 != i3, "C05.HIST-ID-FRESH: every registration yields an id never handed out before");
+            assert!(unregister(i1), "C05.HIST-UNREG: unregister of a live id returns true");
+            assert!(!unregister(i1), "C05.HIST-UNREG: and false for the now stale id");
+            deliver(a);
+            assert!(log_is(&[PREV3, 2, 3]), "C02.HIST-ORDER: after the oldest action was removed the remaining ones still run in the order they were registered");
+            let i4 = register_sigaction(a, act(4)).unwrap();
+            assert!(i4 != i1 && i4 != i2 && i4 != i3, "C05.HIST-ID-FRESH: ids are not reused after a removal");
+            deliver(a);
+            assert!(log_is(&[PREV3, 2, 3, 4]), "C02.HIST-ORDER: a later registration runs last");
+        }
+    }
+}
